@@ -520,7 +520,11 @@ var mutations = []mutation{
 		}
 		ref := kit.Pick(r, []string{"nope", "${trialSpec.Name}", "${trialSpec.Namespace}",
 			"${trialSpec.Kind}", "${trialSpec.APIVersion}", "${trialSpec.Labels[app]}", "${trialSpec.Labels[missing]}", "${trialSpec.Annotations[note]}",
-			"${trialSpec.Annotations[zz]}", "${trialSpec.Foo}", "${trialSpec.Labels}", "x${trialSpec.Name}y", "${trialSpec.name}", "${trialSpec.kind}", "${trialSpec.labels[app]}", "${trialSpec.Foo[bar]}", "${trialSpec.}", "lr", "momentum", "extra"})
+			"${trialSpec.Annotations[zz]}", "${trialSpec.Foo}", "${trialSpec.Labels}", "x${trialSpec.Name}y", "${trialSpec.name}", "${trialSpec.kind}", "${trialSpec.labels[app]}", "${trialSpec.Foo[bar]}", "${trialSpec.}",
+			// oddly indexed references: empty, unclosed, repeated, nested index
+			"${trialSpec.Labels[]}", "${trialSpec.Annotations[]}", "${trialSpec.Labels[app}", "${trialSpec.Labels[app][app]}", "${trialSpec.Annotations[note][0]}",
+			"${trialSpec.Labels[[app]]}", "${trialSpec.Labels]app[}", "${trialSpec.Name[0]}", "${trialSpec.Labels[app]x}",
+			"lr", "momentum", "extra"})
 		i := r.Intn(len(tt(in).TrialParameters))
 		if strings.HasPrefix(ref, "${trialSpec.") {
 			// prefer to replace a metadata reference, so that no search-space parameter loses its only reference
